@@ -36,6 +36,18 @@ CHECKS={
    technique="exhaustive power-loss state enumeration: every trace prefix x every subset of mutations not yet covered by a sync (writes without O_SYNC/flush, renames without directory sync)",
    text="FsyncSchedule::SyncEach, both backends, every workload of up to 3 (quick) / 4 (thorough) ops over appends, batch appends and consuming reads; a power-loss state keeps all synced mutations and any subset of the unsynced ones; acknowledged appends must be readable and acknowledged StrictlyAtOnce consumption must be reflected.",
    note="Trusted: the durability rules (a write is durable if O_SYNC or followed by a flush/fsync of its file; a rename after a directory sync; file creation as soon as it happened - the harness-created namespace directory case is assumed, see DESIGN.md C10). These rules are a model of the file system."),
+ "C18": dict(engine="dwmc-pure", category="model_checking", design="C18",
+   technique="explicit-state BFS over metadata command sequences through the real Metadata::apply, structural invariants on every transition, plus enumerated byte strings",
+   text="All sequences of up to 5 (quick) / 7 (thorough, 14 M states) commands from a 48-60 command alphabet over 2 topics + 1 unknown topic, 3 nodes, counts {0,1,2,(u64::MAX)} are applied to the repository's real state machine; every transition is checked for: segments numbered 1..current with exactly one leader each, open-segment leader = topic leader, sealed counts and leaders immutable, cumulative offset = sum of sealed counts, no panic, no state change on error; arbitrary byte strings (all of length <=1, 42 of length 2, all truncations and single-byte substitutions of valid encodings) must be rejected or applied without panic. The 'random long sequences' of the quantifier are not sampled (no sampling in this family).",
+   note="The real metadata.rs is compiled unmodified via #[path] against a re-implementation of bincode 1.3's wire format (the real crate is not available offline): decode robustness is relative to that stand-in."),
+ "C20": dict(engine="dwmc-pure", category="model_checking", design="C20",
+   technique="C18's BFS with restore(snapshot()) into a fresh state machine at every distinct state and lock-step continuation",
+   text="Part (a): at every distinct state of the depth-4 (quick) / depth-5 (thorough) BFS over metadata commands, Metadata::restore(Metadata::snapshot()) into a fresh instance must reproduce the canonical state, and original and restored replica must answer and evolve identically under two further levels of commands. Part (b) (snapshot through the Raft state-machine adapter) is decided by the octopii storage harness where built, see DESIGN.md.",
+   note="Same stand-in caveat as C18."),
+ "C25": dict(engine="dwmc-pure", category="model_checking", design="C25",
+   technique="exhaustive enumeration of topic strings over a 6-symbol alphabet x boundary segment numbers through the real wal_key / parse_wal_key",
+   text="Every topic of length 0..6 (quick) / 0..7 (thorough) over {t s _ 0 1 a} plus specials (names ending in _s_, _s_7, t_, a non-ASCII and a 300-byte name) x segment numbers {0..20 (quick) / 0..1000}, every 10^k-1, 10^k, 10^k+1, u64::MAX: parse(wal_key(t,s)) == (t,s); injectivity is checked on all topics x 7 segment numbers with a hash map of generated keys.",
+   note="The u64 range is covered up to digit shape only; the closing argument (no '_' in a decimal rendering) is stated, not checked."),
  "C12": seq("C12", BFS+"background reclaimer gated (one loop iteration with deletions per ReclaimTick), each execution in a pristine forked process, FIFO model in-process and after restart",
    "Histories that fully allocate a file in the small geometry (4 blocks per file) from prepared roots, then all sequences up to the bound of consuming reads of both APIs, empty polls, peeks, reclaim ticks and a restart; every reached state is additionally followed by [reclaim tick, drain all] and [reclaim tick, restart, drain all]. Any unconsumed entry that became unreadable (in process or after restart) is a violation; so is a redelivery after restart in StrictlyAtOnce mode."),
  "C13": seq("C13", BFS+"2-3 live instances (distinct keys / same key in distinct data dirs) in one pristine process per execution, per-instance FIFO/count/marker model, reclaimer gated",
@@ -59,7 +71,7 @@ m={"version":1,
  "hooks":{"guard":"walrus_verif","enable":"RUSTFLAGS=\"--cfg walrus_verif\" plus WALRUS_VERIF_* geometry variables (set by /verif/engines/build.sh for every engine build)",
    "baseline_off_cmd":"cd /repo && cargo nextest run --workspace --no-fail-fast --test-threads 8 --offline || cargo test --workspace --no-fail-fast --offline",
    "source_commits":hook_commits,"add_only":True},
- "engines":[{"name":"walmc-crash","path":"engines/walmc/src/crash.rs","serves_properties":["C07","C08","C09","C10"],"kind_free_text":"crash / power-loss state enumeration from recorded I/O traces on the real engine (E2)"},{"name":"walmc-seq","path":"engines/walmc","serves_properties":[i for i in CHECKS if CHECKS[i]["engine"]=="walmc-seq"],"kind_free_text":"explicit-state BFS over API histories on the real engine (E1)"}],
+ "engines":[{"name":"dwmc-pure","path":"engines/dwmc","serves_properties":["C18","C20","C25"],"kind_free_text":"explicit-state BFS / enumeration over distributed-walrus source files compiled unmodified against stand-in crates (E4 pure part)"},{"name":"walmc-crash","path":"engines/walmc/src/crash.rs","serves_properties":["C07","C08","C09","C10"],"kind_free_text":"crash / power-loss state enumeration from recorded I/O traces on the real engine (E2)"},{"name":"walmc-seq","path":"engines/walmc","serves_properties":[i for i in CHECKS if CHECKS[i]["engine"]=="walmc-seq"],"kind_free_text":"explicit-state BFS over API histories on the real engine (E1)"}],
  "checks":[{"property_id":i,"quick_cmd":cmd(i,"quick"),"thorough_cmd":cmd(i,"thorough"),"evidence_file":f"/verif/evidence/{i}.json",
             "replay_cmd_template":"./check --replay {path}","engine":c["engine"],
             "level_claimed":{"category":c["category"],"text":c["text"],"design_ref":"DESIGN.md section "+c["design"]},
